@@ -165,6 +165,8 @@ def rule_node_events(ctx: Ctx, out: Collector) -> None:
         delta = {
             ('q0', 'S'): 'q1', ('q0', 'P'): 'q5',
             ('q1', 'A'): 'qa',
+            # a forced default is produced without entering the attempt loop
+            ('q1', 'K'): 'qf', ('q1', 'D'): 'q2', ('qf', 'K'): 'qf', ('qf', 'D'): 'q2', ('qf', 'Ce'): 'q3',
             ('qa', 'K'): 'qk', ('qa', 'B'): 'q2', ('qa', 'D'): 'q2', ('qa', 'Ce'): 'q3',
             ('qk', 'K'): 'qk', ('qk', 'B'): 'q2', ('qk', 'D'): 'q2', ('qk', 'Ce'): 'q3',
             ('q2', 'K'): 'q2', ('q2', 'D'): 'q2d', ('q2', 'Ce'): 'q3', ('q2', 'C0'): 'q4', ('q2', 'B'): 'q2',
